@@ -23,6 +23,7 @@ From DV Require Import Lib.Base Gen.Tables Gen.PolicyTables Wire.Names Policy.Po
 Local Open Scope N_scope.
 
 Record conn := mkConn {
+  c_uid : N;               (* authenticated unix user *)
   c_rules : list rule;     (* BusConnectionData.policy: fixed at Hello *)
   c_name : bytes;          (* unique name *)
   c_sig : bool;            (* has the match rule "type='signal'" *)
@@ -165,7 +166,9 @@ Definition dispatch_matches (b : bus) (s : N) (addressed : option N) (m : msg) :
                                 then [(c, WProbe)] else []) (conn_ids b1))
       else (b1, error_reply b1 s DBUS_ERROR_ACCESS_DENIED_str m)
   | None =>
-      (b, flat_map (fun c => if wants b c false && verdict_ok (fst (gate b (Some s) None (Some c) m))
+      (* a broadcast goes to everybody with a matching rule; a message that the bus driver has handled
+         (destination org.freedesktop.DBus) only to eavesdroppers *)
+      (b, flat_map (fun c => if wants b c (is_some (m_dest m)) && verdict_ok (fst (gate b (Some s) None (Some c) m))
                              then [(c, WProbe)] else []) (conn_ids b))
   end.
 
@@ -181,27 +184,33 @@ Inductive step_result :=
 | Fault (why : N)                               (* 1 = no such connection, 2 = own rule with prefix and no name, 3 = not modelled *)
 | Done (b : bus) (out : list delivery).
 
+(* result of a bus-driver method: [HErr] = the handler returned an error (which bus_dispatch turns into an error reply) *)
+Inductive handled :=
+| HFault (why : N)
+| HOk (b : bus) (out : list delivery)
+| HErr (b : bus) (out : list delivery).
+
 (* bus_driver_handle_request_name + bus_registry_acquire_service with flags = 0;
    max_names_per_connection is assumed not to be reached *)
-Definition request_name (b : bus) (s : N) (name : bytes) (m : msg) : step_result :=
-  if negb (validate_bus_name name) then Done b (error_reply b s DBUS_ERROR_INVALID_ARGS_str m) else
-  if match name with 58 :: _ => true | _ => false end then Done b (error_reply b s DBUS_ERROR_INVALID_ARGS_str m) else
-  if bytes_eqb name DBUS_SERVICE_DBUS_str then Done b (error_reply b s DBUS_ERROR_INVALID_ARGS_str m) else
+Definition request_name (b : bus) (s : N) (name : bytes) (m : msg) : handled :=
+  if negb (validate_bus_name name) then HErr b (error_reply b s DBUS_ERROR_INVALID_ARGS_str m) else
+  if match name with 58 :: _ => true | _ => false end then HErr b (error_reply b s DBUS_ERROR_INVALID_ARGS_str m) else
+  if bytes_eqb name DBUS_SERVICE_DBUS_str then HErr b (error_reply b s DBUS_ERROR_INVALID_ARGS_str m) else
   match check_can_own (rules_of b s) name with
-  | None => Fault 2
-  | Some false => Done b (error_reply b s DBUS_ERROR_ACCESS_DENIED_str m)
+  | None => HFault 2
+  | Some false => HErr b (error_reply b s DBUS_ERROR_ACCESS_DENIED_str m)
   | Some true =>
       match reg_lookup (b_reg b) name with
       | None | Some [] =>
           let b1 := set_reg b (reg_set (b_reg b) name [s]) in
-          Done b1 (name_acquired b1 s name ++ name_owner_changed b1 name ++
+          HOk b1 (name_acquired b1 s name ++ name_owner_changed b1 name ++
                    from_driver b1 s (return_msg b1 s m) (WReturn (Some DBUS_REQUEST_NAME_REPLY_PRIMARY_OWNER)))
       | Some (o :: q) =>
-          if o =? s then Done b (from_driver b s (return_msg b s m) (WReturn (Some DBUS_REQUEST_NAME_REPLY_ALREADY_OWNER)))
+          if o =? s then HOk b (from_driver b s (return_msg b s m) (WReturn (Some DBUS_REQUEST_NAME_REPLY_ALREADY_OWNER)))
           else
             let q' := if in_queue s q then q else q ++ [s] in
             let b1 := set_reg b (reg_set (b_reg b) name (o :: q')) in
-            Done b1 (from_driver b1 s (return_msg b1 s m) (WReturn (Some DBUS_REQUEST_NAME_REPLY_IN_QUEUE)))
+            HOk b1 (from_driver b1 s (return_msg b1 s m) (WReturn (Some DBUS_REQUEST_NAME_REPLY_IN_QUEUE)))
       end
   end.
 
@@ -212,17 +221,19 @@ Fixpoint set_nth {A} (l : list A) (n : nat) (x : A) : list A :=
   | h :: t, S n' => h :: set_nth t n' x
   end.
 
-Definition add_match (b : bus) (s : N) (rule_text : bytes) (m : msg) : step_result :=
+Definition add_match (b : bus) (s : N) (rule_text : bytes) (m : msg) : handled :=
   match get_conn b s with
-  | None => Fault 1
+  | None => HFault 1
   | Some c =>
       if bytes_eqb rule_text s_match_signal then
-        let b1 := mkBus (b_policy b) (set_nth (b_conns b) (N.to_nat s) (mkConn (c_rules c) (c_name c) true (c_eav c))) (b_reg b) (b_pending b) in
-        Done b1 (from_driver b1 s (return_msg b1 s m) (WReturn None))
+        let b1 := mkBus (b_policy b) (set_nth (b_conns b) (N.to_nat s) (mkConn (c_uid c) (c_rules c) (c_name c) true (c_eav c))) (b_reg b) (b_pending b) in
+        HOk b1 (from_driver b1 s (return_msg b1 s m) (WReturn None))
       else if bytes_eqb rule_text s_match_eavesdrop then
-        let b1 := mkBus (b_policy b) (set_nth (b_conns b) (N.to_nat s) (mkConn (c_rules c) (c_name c) (c_sig c) true)) (b_reg b) (b_pending b) in
-        Done b1 (from_driver b1 s (return_msg b1 s m) (WReturn None))
-      else Fault 3
+        (* bus_driver_check_caller_is_privileged: only root (the daemon is assumed to run as root) may eavesdrop *)
+        if negb (c_uid c =? 0) then HErr b (error_reply b s DBUS_ERROR_ACCESS_DENIED_str m) else
+        let b1 := mkBus (b_policy b) (set_nth (b_conns b) (N.to_nat s) (mkConn (c_uid c) (c_rules c) (c_name c) (c_sig c) true)) (b_reg b) (b_pending b) in
+        HOk b1 (from_driver b1 s (return_msg b1 s m) (WReturn None))
+      else HFault 3
   end.
 
 Definition to_driver_iface_ok (m : msg) : bool :=
@@ -240,12 +251,20 @@ Definition do_send (b : bus) (s : N) (m : msg) (arg : bytes) : step_result :=
             let '(v, pend) := gate b (Some s) None None m in
             let b1 := set_pending b pend in
             if negb (verdict_ok v) then Done b1 (error_reply b1 s DBUS_ERROR_ACCESS_DENIED_str m)
-            else if negb (m_type m =? DBUS_MESSAGE_TYPE_METHOD_CALL) then Done b1 []
-            else if negb (to_driver_iface_ok m) then Fault 3
-            else if obytes_is (m_member m) s_RequestName then request_name b1 s arg m
-            else if obytes_is (m_member m) s_AddMatch then add_match b1 s arg m
-            else if obytes_is (m_member m) s_GetId then Done b1 (from_driver b1 s (return_msg b1 s m) (WReturn None))
-            else Fault 3
+            else
+              (* bus_driver_handle_message; when it succeeds bus_dispatch goes on to bus_dispatch_matches with no
+                 addressed recipient, so eavesdroppers see what was sent to the driver *)
+              let h := if negb (m_type m =? DBUS_MESSAGE_TYPE_METHOD_CALL) then HOk b1 []
+                       else if negb (to_driver_iface_ok m) then HFault 3
+                       else if obytes_is (m_member m) s_RequestName then request_name b1 s arg m
+                       else if obytes_is (m_member m) s_AddMatch then add_match b1 s arg m
+                       else if obytes_is (m_member m) s_GetId then HOk b1 (from_driver b1 s (return_msg b1 s m) (WReturn None))
+                       else HFault 3 in
+              match h with
+              | HFault k => Fault k
+              | HErr b2 out => Done b2 out
+              | HOk b2 out => let '(b3, out') := dispatch_matches b2 s None m in Done b3 (out ++ out')
+              end
           else
             match reg_lookup (b_reg b) d with
             | None | Some [] => Done b (error_reply b s DBUS_ERROR_NAME_HAS_NO_OWNER_str m)
@@ -262,7 +281,7 @@ Definition do_send (b : bus) (s : N) (m : msg) (arg : bytes) : step_result :=
 Definition do_connect (mk : policy -> N -> list N -> bool -> list rule)
            (b : bus) (uid : N) (gids : list N) (at_console : bool) (uname : bytes) (hello_serial : N) : step_result :=
   let n := N.of_nat (length (b_conns b)) in
-  let c := mkConn (mk (b_policy b) uid gids at_console) uname false false in
+  let c := mkConn uid (mk (b_policy b) uid gids at_console) uname false false in
   let b1 := mkBus (b_policy b) (b_conns b ++ [c]) (reg_set (b_reg b) uname [n]) (b_pending b) in
   let hello := mkMsg DBUS_MESSAGE_TYPE_METHOD_CALL (Some DBUS_PATH_DBUS_str) (Some DBUS_INTERFACE_DBUS_str) None None
                      (Some DBUS_SERVICE_DBUS_str) None 0 0 hello_serial false in
